@@ -575,7 +575,9 @@ def initkind(pid):
                         continue
                     n += 1
                     key = "R-INITKIND/%s/%s" % (f.path, row["what"])
-                    if init == row["init"]:
+                    # (a unit variant is spelled `SectorInit::Dir()` as an aggregate and `const:SectorInit::Dir` as a
+                    # constant - named or not)
+                    if init == row["init"] or re.sub(r"^const:", "", init) + "()" == row["init"]:
                         res.ok({"function": f.path, "chain": row["what"], "call": c.name.split("::")[-1], "init": init}, nontrivial=True)
                     else:
                         res.fail(Finding(res.rule, key + "/wrong-initialiser", "the %s chain is handled with %s in %s (line %d); sectors added through this chain object would be initialised as %s instead of %s (%s)" % (row["what"], init, c.name.split("::")[-1], c.line, init, row["init"], row["why"]), f, c.term["span"]))
